@@ -664,6 +664,24 @@ def full_raw_edge_walk(ctx, body, bb):
     return False, "degree increment is not in an unfiltered loop over raw_edges()"
 
 
+def ranges_all_nodes(chain):
+    """the iterator chain enumerates every node id: node_indices() / node_references() / Topo, or
+    `(0..graph.node_count()).map(NodeIndex::new)`"""
+    names = [c[0] for c in chain]
+    if any(x in ALL_NODE_SOURCES or x.endswith("::node_indices") for x in names):
+        return True
+    leaf = chain[-1] if chain else None
+    if leaf is not None and leaf[0] == "leaf:agg" and len(leaf[2]) > 4 and leaf[2][2] == "std::ops::Range":
+        lo, hi = strip_refs(leaf[2][4][0]), strip_refs(leaf[2][4][1])
+        if is_const(lo, 0) and hi.kind == "call" and hi[1] in NODE_COUNT_FNS:
+            maps = [c for c in chain if c[0] == "std::iter::Iterator::map"]
+            if len(maps) == 1 and len(maps[0][2][2]) > 1:
+                f = strip_refs(maps[0][2][2][1])
+                if f.kind == "fnconst" and str(f[1]).endswith(("NodeIndex::<Ix>::new", "::node_index")):
+                    return True
+    return False
+
+
 def full_edge_walk(ctx, body, bb=None):
     """`body` is a closure passed to Iterator::for_each over children(n)/parents(n)
     (no narrowing adaptor), itself inside a fold/for_each over all nodes -- or the
@@ -688,7 +706,7 @@ def full_edge_walk(ctx, body, bb=None):
                 return False, "edge loop is conditional inside the node loop"
             ochain = iterator_chain(ctx, body, lr_out["iter_expr"]) if lr_out.get("iter_expr") is not None else []
             onames = [c[0] for c in ochain]
-            if [x for x in onames if x in SELECTIVE_ITER] or not any(x in ALL_NODE_SOURCES or x.endswith("::node_indices") for x in onames):
+            if [x for x in onames if x in SELECTIVE_ITER] or not ranges_all_nodes(ochain):
                 return False, "node loop does not range over all nodes: %s" % onames
             return True, ""
         if body.kind != "closure":
@@ -890,7 +908,7 @@ def S1(ctx, rule="S1"):
                         continue
                     gs = [c for c in walk_expr(expr_operand(body_, o)) if c.kind == "call" and c[1].startswith("edge_counts::EdgeCounts::") and
                           not any("StreamOrder" in i_["s"] for i_ in (fb.fns.get(c[1]) or {}).get("inputs", []))]     # (an order-keyed selector is not a getter)
-                    if gs and dag_ops:
+                    if gs and dag_ops and len({g_[1] for g_ in gs}) == 1:       # (a value that may come from either getter was selected earlier)
                         out_.append((bb, dag_ops[0], gs[0][1]))
         return out_
     pairs = pairs_in(setup)
@@ -961,6 +979,26 @@ def S1(ctx, rule="S1"):
             if not by_arm or set(by_arm) != {"Forward", "Reverse"}:
                 continue
             csites = [(cb_, cbb_, ct_) for (cb_, cbb_, ct_) in fl.call_sites().get(hb.id, []) if cb_.id == setup.id]
+            if len(csites) == 2 and kind == "struct" and all(v[0] == "param" for v in by_arm.values()):
+                # one generic positional selector (`order.select(forward, reverse)`) called once with the two structures and once
+                # with the two counts: pair the call sites arm by arm
+                for (cb_, cbb_, ct_) in csites:
+                    pf_ = by_arm["Forward"][1]
+                    a0 = ct_["args"][pf_ - 1] if pf_ - 1 < len(ct_["args"]) else None
+                    if a0 is None:
+                        continue
+                    if "daggy::Dag" in ((a0.get("pl") or {}).get("ty") or ""):
+                        sel_struct = (hb, by_arm, (cb_, cbb_, ct_))
+                    else:
+                        arms2 = {}
+                        for o_, (_, pi_) in by_arm.items():
+                            ex_ = strip_refs(expr_operand(cb_, ct_["args"][pi_ - 1])) if pi_ - 1 < len(ct_["args"]) else None
+                            g_ = [c for c in walk_expr(ex_) if c.kind == "call" and c[1].startswith("edge_counts::EdgeCounts::")] if ex_ is not None else []
+                            if g_:
+                                arms2[o_] = ("getter", g_[0][1])
+                        if set(arms2) == {"Forward", "Reverse"}:
+                            sel_counts = (hb, arms2, (cb_, cbb_, ct_))
+                continue
             if len(csites) != 1:
                 continue
             if kind == "counts" and all(v[0] in ("getter", "field") for v in by_arm.values()):
@@ -2210,7 +2248,20 @@ def S5(ctx, rule="S5"):
                 for a in fnargs:
                     for c in walk_expr(a):
                         if c.kind == "call" and c[1] in LOOKUP_FNS:
-                            looked.append(c)
+                            looked.append((c[2][0], c[2][1]))
+                if not looked:
+                    # the lookup may sit in a private helper (`fn_mut_borrow(table, id)`): use its return expression with the
+                    # arguments of this call substituted
+                    for a in fnargs:
+                        for c in walk_expr(a):
+                            if c.kind == "call" and c[1] in fb.bodies and fb.bodies[c[1]].kind == "fn":
+                                ie = inline_local_calls(ctx, c)
+                                if ie is not c:
+                                    for c2 in walk_expr(ie):
+                                        if c2.kind == "call" and c2[1] in LOOKUP_FNS:
+                                            looked.append((c2[2][0], c2[2][1]))
+                                        elif c2.kind == "index":
+                                            looked.append((c2[1], c2[2]))
                 if not looked:
                     # wrapper closure forwarding its own parameter?
                     psrc = set()
@@ -2225,8 +2276,7 @@ def S5(ctx, rule="S5"):
                     continue
                 n += 1
                 ctx.cover(rule, b.id)
-                lk = looked[-1]       # innermost lookup
-                cont, idx = lk[2][0], lk[2][1]
+                cont, idx = looked[-1]       # innermost lookup
                 idv = node_index_arg(idx) or strip_refs(idx)
                 idsrc = sources_of_expr(ctx, b, idv)
                 ctx.check(m.is_ready_item(idsrc), rule, "lookup-id|%s" % key, where,
@@ -2297,9 +2347,17 @@ def lookup_container_ok(ctx, csrc, roles):
     fb = ctx.fb
     if not csrc:
         return False, "no sources"
+    if not roles:
+        return False, "the roles of FnGraph's fields could not be established (build() does not assemble them in a recognised way)"
     for s in csrc:
         if s.kind == "param" and s[2] == 1 and len(s[3]) >= 1 and roles and s[3][0] == roles["graph"] and \
                 (fb.fns.get(s[1], {}).get("impl_self", "") or "").startswith("fn_graph::FnGraph<"):
+            continue
+        if s.kind == "alloc" and s[4] in ("std::vec::Vec::<T>::with_capacity", "std::vec::Vec::<T>::new"):
+            # per-function lock table filled by `for f in graph.node_weights_mut() { table.push(RwLock::new(f)) }`
+            ok, why = lock_table_push_ok(ctx, fb.bodies[s[1]], s[2], roles)
+            if not ok:
+                return False, why
             continue
         if s.kind == "alloc" and s[4] == "std::iter::Iterator::collect":
             # per-function lock table: check the chain collect(map(node_weights_mut(g), RwLock::new))
@@ -2309,6 +2367,51 @@ def lookup_container_ok(ctx, csrc, roles):
                 return False, why
             continue
         return False, "unexpected source %s" % fmt_src(s)
+    return True, ""
+
+
+def lock_table_push_ok(ctx, body, alloc_bb, roles):
+    """the table allocated at alloc_bb is filled only by one unconditional `push` per item of an unfiltered, unreordered
+    `graph.node_weights_mut()` loop, the graph being the FnGraph's own function storage"""
+    fl = ctx.model.flow
+    pushes = []
+    for bb, t in body.calls():
+        p = callee_path(t) or ""
+        if not t["args"] or t["args"][0]["k"] == "const":
+            continue
+        ty = t["args"][0]["pl"]["ty"]
+        if not (ty.startswith("&mut std::vec::Vec<") or ty.startswith("&mut [")):
+            continue
+        if not any(x.kind == "alloc" and x[1] == body.id and x[2] == alloc_bb and not x[3] for x in fl.sources_operand(body, t["args"][0])):
+            continue
+        if p == "std::vec::Vec::<T, A>::push":
+            pushes.append((bb, t))
+        elif p in ("std::ops::DerefMut::deref_mut", "std::ops::IndexMut::index_mut", "std::vec::Vec::<T, A>::as_mut_slice"):
+            continue
+        else:
+            return False, "the per-function lock table is also modified by %s" % p
+    if len(pushes) != 1:
+        return False, "the per-function lock table is filled by %d push sites" % len(pushes)
+    bb, t = pushes[0]
+    lr = loop_region(ctx, body, bb)
+    if lr is None or lr.get("iter_expr") is None:
+        return False, "the push into the per-function lock table is not inside a loop over the functions"
+    chain = iterator_chain(ctx, body, lr["iter_expr"])
+    names = [p_ for p_, _, _ in chain]
+    hit = [e for p_, cb, e in chain if p_ == "daggy::Dag::<N, E, Ix>::node_weights_mut"]
+    if not hit:
+        return False, "the loop filling the lock table is not over node_weights_mut(): chain %s" % names
+    bad = [p_ for p_ in names if p_ in SELECTIVE_ITER or p_ in MORE_ITER]
+    if bad:
+        return False, "the loop filling the lock table is filtered/reordered by %s" % bad
+    gs_ = [g for g in cond_guards(body, bb) if g[0] != lr.get("switch_bb")]
+    if gs_ or lr["early_exits"]:
+        return False, "the push into the lock table is conditional / the loop can be left early"
+    g = sources_of_expr(ctx, body, hit[0][2][0])
+    for s_ in g:
+        if not (s_.kind == "param" and s_[2] == 1 and s_[3][:1] == (roles["graph"],) and
+                (ctx.fb.fns.get(s_[1], {}).get("impl_self", "") or "").startswith("fn_graph::FnGraph<")):
+            return False, "lock table is not built from the graph's own function storage"
     return True, ""
 
 
